@@ -122,6 +122,7 @@ func cmdWorker(args []string) int {
 	startTicks := simrt.Now()
 	done := uint64(0)
 	flushed := uint64(0)
+	restartAt := int64(-1)
 	// counters go to the parent as deltas every 64 runs, so that little is lost if this process
 	// is killed by a run that aborts it
 	flushStats := func() {
@@ -166,6 +167,11 @@ func cmdWorker(args []string) int {
 		if done%64 == 0 {
 			flushStats()
 		}
+		if sc.RunsPerProcess != 0 && done >= sc.RunsPerProcess && i+*n < *count {
+			// hand the rest of the stripe to a fresh process (cold library state)
+			restartAt = int64(i + 1)
+			break
+		}
 	}
 	flushStats()
 	if simrt.SiteHits != nil {
@@ -178,7 +184,11 @@ func cmdWorker(args []string) int {
 		}
 		fmt.Fprintf(out, "C %s\n", sb.String())
 	}
-	fmt.Fprintf(out, "F\n")
+	if restartAt >= 0 {
+		fmt.Fprintf(out, "N %d\n", restartAt)
+	} else {
+		fmt.Fprintf(out, "F\n")
+	}
 	out.Flush()
 	return exitOK
 }
@@ -195,6 +205,7 @@ type replayFile struct {
 	Tape      []uint64   `json:"tape"`
 	Trace     []string   `json:"trace"`
 	Shrink    string     `json:"shrink,omitempty"`
+	Flaky     string     `json:"nondeterministic,omitempty"`
 	Note      string     `json:"note,omitempty"`
 }
 
